@@ -4,29 +4,29 @@
 // C07_lock_order_acyclic are computed on) and locks_report.txt (human readable).
 //
 // The analysis and its approximations (all repeated in lib/props.py, trusted_base of C07):
-//  * identity: a lock / a location is Type.field ("one instance per type"); a pointer field
-//    that is initialised with the address of a mutex field (`rwLock: &m.txLock`) is that lock.
-//  * context-sensitive walk from the roots: a callee is analysed once per distinct set of held
-//    locks; its effect on the set (helpers that only lock or only unlock) is the intersection
-//    over its normal exits.  Interface calls go to every implementation inside the module.
-//  * "held at this statement" is block structured: a branch that ends in return/break/continue/
-//    panic does not leak its lock changes, joins intersect (Ex joined with Sh gives Sh), a loop
-//    body may run zero times.  `defer mu.Unlock()` releases at function exit; other deferred
-//    calls are analysed where the defer statement stands.
-//  * function literals are analysed where they are called or passed as an argument (with the
-//    locks held there); literals stored elsewhere where they are written; `go` resets the set.
-//  * roots: exported methods of the engine facade, storage manager, transaction manager,
-//    transactions, transaction registry, compaction manager and coordinator, statistics
-//    collector, the iterators handed to clients, and every `go` statement of the covered
-//    packages.  Lifecycle methods (Close/Stop/Start/GracefulShutdown) are not roots; code
-//    reached only from constructors is pre-publication and never analysed.
-//  * a location is listed only if reachable code writes it; composite-literal initialisation and
-//    accesses through a local variable that holds a freshly constructed object are not accesses
-//    to shared state; fields of sync/atomic types, mutexes and channels are synchronised by
-//    construction; fields of thread-confined types (one client, one goroutine: iterators,
-//    writers, builders, transaction buffers' owners ...) are listed in confinedTypes.
-//  * taking the address of a field (&x.f) counts as a read; writes through such pointers and
-//    through method values / reflection are not seen.
+//   - identity: a lock / a location is Type.field ("one instance per type"); a pointer field
+//     that is initialised with the address of a mutex field (`rwLock: &m.txLock`) is that lock.
+//   - context-sensitive walk from the roots: a callee is analysed once per distinct set of held
+//     locks; its effect on the set (helpers that only lock or only unlock) is the intersection
+//     over its normal exits.  Interface calls go to every implementation inside the module.
+//   - "held at this statement" is block structured: a branch that ends in return/break/continue/
+//     panic does not leak its lock changes, joins intersect (Ex joined with Sh gives Sh), a loop
+//     body may run zero times.  `defer mu.Unlock()` releases at function exit; other deferred
+//     calls are analysed where the defer statement stands.
+//   - function literals are analysed where they are called or passed as an argument (with the
+//     locks held there); literals stored elsewhere where they are written; `go` resets the set.
+//   - roots: exported methods of the engine facade, storage manager, transaction manager,
+//     transactions, transaction registry, compaction manager and coordinator, statistics
+//     collector, the iterators handed to clients, and every `go` statement of the covered
+//     packages.  Lifecycle methods (Close/Stop/Start/GracefulShutdown) are not roots; code
+//     reached only from constructors is pre-publication and never analysed.
+//   - a location is listed only if reachable code writes it; composite-literal initialisation and
+//     accesses through a local variable that holds a freshly constructed object are not accesses
+//     to shared state; fields of sync/atomic types, mutexes and channels are synchronised by
+//     construction; fields of thread-confined types (one client, one goroutine: iterators,
+//     writers, builders, transaction buffers' owners ...) are listed in confinedTypes.
+//   - taking the address of a field (&x.f) counts as a read; writes through such pointers and
+//     through method values / reflection are not seen.
 package main
 
 import (
@@ -84,27 +84,27 @@ const quiesce = "assume:no-close-during-calls"
 
 // struct types whose instances belong to one goroutine at a time by construction
 var confinedTypes = map[string]string{
-	"sstable.Iterator":            "one iterator per client call; guarded by its own mutex anyway",
-	"sstable.IteratorAdapter":     "wrapper of one Iterator",
-	"memtable.Iterator":           "one iterator per client call",
-	"memtable.IteratorAdapter":    "wrapper of one Iterator",
-	"sstable.Writer":              "created and finished inside one flush/compaction call",
-	"sstable.FileManager":         "part of one Writer",
-	"sstable.BlockManager":        "part of one Writer",
-	"sstable.IndexBuilder":        "part of one Writer",
-	"transaction.Buffer":          "has its own mutex; owned by one transaction",
-	"wal.Reader":                  "created and used inside one replay call",
-	"wal.Batch":                   "value built by one caller",
-	"wal.Entry":                   "value built by one caller",
-	"compaction.CompactionTask":   "value built by one compaction cycle",
-	"compaction.SSTableInfo":      "value built by one compaction cycle",
-	"memtable.RecoveryOptions":    "value",
-	"wal.RecoveryStats":           "value returned by one replay call",
-	"sstable.BlockLocator":        "value",
-	"sstable.BlockBloomFilter":    "immutable after OpenReader",
-	"engine/iterator.Factory":     "stateless",
-	"memtable.entry":              "immutable once inserted in the skip list",
-	"memtable.node":               "skip-list node: next pointers are atomic, entry immutable",
+	"sstable.Iterator":          "one iterator per client call; guarded by its own mutex anyway",
+	"sstable.IteratorAdapter":   "wrapper of one Iterator",
+	"memtable.Iterator":         "one iterator per client call",
+	"memtable.IteratorAdapter":  "wrapper of one Iterator",
+	"sstable.Writer":            "created and finished inside one flush/compaction call",
+	"sstable.FileManager":       "part of one Writer",
+	"sstable.BlockManager":      "part of one Writer",
+	"sstable.IndexBuilder":      "part of one Writer",
+	"transaction.Buffer":        "has its own mutex; owned by one transaction",
+	"wal.Reader":                "created and used inside one replay call",
+	"wal.Batch":                 "value built by one caller",
+	"wal.Entry":                 "value built by one caller",
+	"compaction.CompactionTask": "value built by one compaction cycle",
+	"compaction.SSTableInfo":    "value built by one compaction cycle",
+	"memtable.RecoveryOptions":  "value",
+	"wal.RecoveryStats":         "value returned by one replay call",
+	"sstable.BlockLocator":      "value",
+	"sstable.BlockBloomFilter":  "immutable after OpenReader",
+	"engine/iterator.Factory":   "stateless",
+	"memtable.entry":            "immutable once inserted in the skip list",
+	"memtable.node":             "skip-list node: next pointers are atomic, entry immutable",
 }
 
 // locations deliberately left out of the table, each with the reason (counted in the evidence)
@@ -235,19 +235,19 @@ type accRow struct {
 type ordRow struct{ a, b, fn, pos string }
 
 type lockAn struct {
-	pkgs      map[string]*lpkg         // by package path
-	funcs     map[*types.Func]*fnInfo  // declared functions with bodies
-	owner     map[*types.Var]string    // field -> "rel.Type"
-	named     []*types.Named           // named types of the covered packages
-	alias     map[string]string        // pointer-to-mutex field -> mutex field it is set to
-	memo      map[string]lockSet       // fn|held -> exit set
-	active    map[string]bool
-	rows      map[accRow]bool
-	order     map[ordRow]bool
-	goTargets []func(*walker)          // bodies started by go statements (analysed as roots)
-	goSeen    map[token.Pos]bool
-	reached   map[string]bool
-	notes     []string
+	pkgs       map[string]*lpkg        // by package path
+	funcs      map[*types.Func]*fnInfo // declared functions with bodies
+	owner      map[*types.Var]string   // field -> "rel.Type"
+	named      []*types.Named          // named types of the covered packages
+	alias      map[string]string       // pointer-to-mutex field -> mutex field it is set to
+	memo       map[string]lockSet      // fn|held -> exit set
+	active     map[string]bool
+	rows       map[accRow]bool
+	order      map[ordRow]bool
+	goTargets  []func(*walker) // bodies started by go statements (analysed as roots)
+	goSeen     map[token.Pos]bool
+	reached    map[string]bool
+	notes      []string
 	unbalanced map[string]string
 }
 
@@ -355,7 +355,7 @@ type walker struct {
 	fn       *fnInfo
 	name     string
 	held     lockSet
-	deferred []string               // locks released at exit
+	deferred []string // locks released at exit
 	lits     map[types.Object]*ast.FuncLit
 	litHeld  map[*ast.FuncLit]lockSet // held set at the definition of a literal not yet analysed
 	litDone  map[*ast.FuncLit]bool
